@@ -12,7 +12,7 @@ func init() {
 				{Harness: "vh_C15_order", Globals: map[string]int{"vhNVars": 3}, Unroll: 12, MaxPaths: 200000},
 				{Harness: "vh_C15_order", Globals: map[string]int{"vhNVars": 4}, Unroll: 12, MaxPaths: 200000},
 			}
-			r = append(r, Oblig{Harness: "vh_C15_deps", Globals: map[string]int{"vhDepthMax": 8}, Unroll: 30, NoRedirect: true})
+			r = append(r, Oblig{Harness: "vh_C15_deps", Globals: map[string]int{"vhDepthMax": 10}, Unroll: 30, NoRedirect: true})
 			return r
 		},
 		Bounds:      []string{"2..4 package-level variables in declaration order", "every dependency relation between them (n*(n-1) symbolic booleans), cyclic ones included"},
